@@ -46,17 +46,18 @@ NoErr == <<"noerr">>
 Fixed(f) == f \in FIXED
 
 \* ---- options: setup-relevant (ext, fmg, L, take, caches) and solve-relevant (maxIter, absOn, relOn, fmgIts)
-OptNames == {"ext", "fmg", "L", "take", "caches", "maxIter", "absOn", "relOn", "exact", "misc"}
-Dom(o) == CASE o = "ext" -> ExtDom [] o = "L" -> LDom [] o = "maxIter" -> MaxIterDom [] o = "misc" -> MiscDom
+OptNames == {"ext", "fmg", "L", "take", "caches", "maxIter", "absOn", "relOn", "exact", "misc", "grid"}
+Dom(o) == CASE o = "ext" -> ExtDom [] o = "L" -> LDom [] o = "maxIter" -> MaxIterDom [] o = "misc" -> MiscDom [] o = "grid" -> {0, 1}
             [] OTHER -> BOOLEAN
-SetupRelevant == {"ext", "fmg", "L", "take", "caches"}
+\* "grid": the problem size (divideBy2 refinements of the finest grid), as changed by the refinement loop of convergence_order.cpp
+SetupRelevant == {"ext", "fmg", "L", "take", "caches", "grid"}
 
 InitOpts == [ext |-> 0, fmg |-> FALSE, L |-> CHOOSE l \in LDom : TRUE, take |-> FALSE, caches |-> TRUE,
              maxIter |-> CHOOSE m \in MaxIterDom : m > 0, absOn |-> TRUE, relOn |-> TRUE, exact |-> TRUE,
-             misc |-> CHOOSE m \in MiscDom : TRUE]
+             misc |-> CHOOSE m \in MiscDom : TRUE, grid |-> 0]
 
-NoLevels == [valid |-> FALSE, ext |-> 0, fmg |-> FALSE, L |-> 0, take |-> FALSE, caches |-> TRUE]
-BuiltOf(o) == [valid |-> TRUE, ext |-> o.ext, fmg |-> o.fmg, L |-> o.L, take |-> o.take, caches |-> o.caches]
+NoLevels == [valid |-> FALSE, ext |-> 0, fmg |-> FALSE, L |-> 0, take |-> FALSE, caches |-> TRUE, grid |-> 0]
+BuiltOf(o) == [valid |-> TRUE, ext |-> o.ext, fmg |-> o.fmg, L |-> o.L, take |-> o.take, caches |-> o.caches, grid |-> o.grid]
 
 \* documented rejection rule of setup(): the take strategy needs both caches
 Rejected(o) == o.take /\ ~o.caches
@@ -236,8 +237,8 @@ ComputeStats ==
   /\ UNCHANGED tsolve
 
 Next ==
-  \/ \E o \in Settable \cap {"ext", "L", "maxIter", "misc"}, v \in ExtDom \cup LDom \cup MaxIterDom \cup MiscDom : SetOpt(o, v)
-  \/ \E o \in Settable \ {"ext", "L", "maxIter", "misc"}, v \in BOOLEAN : SetOpt(o, v)
+  \/ \E o \in Settable \cap {"ext", "L", "maxIter", "misc", "grid"}, v \in ExtDom \cup LDom \cup MaxIterDom \cup MiscDom \cup {0, 1} : SetOpt(o, v)
+  \/ \E o \in Settable \ {"ext", "L", "maxIter", "misc", "grid"}, v \in BOOLEAN : SetOpt(o, v)
   \/ SetupReject \/ SetupBuild \/ SolveReject \/ SolveAbort \/ SolveEnter \/ SolveBegin \/ LoopHead \/ ExactErr
   \/ \E met \in BOOLEAN, bad \in BOOLEAN : ResNorm(met, bad)
   \/ RunCycle \/ ComputeStats
